@@ -64,7 +64,8 @@ func (v *BasicSeqnoValidator) validate(ctx context.Context, _ peer.ID, m *Messag
 
 	var seqno uint64
 	seqnoBytes := m.GetSeqno()
-	if len(seqnoBytes) > 0 {
+	// a seqno shorter than 8 bytes is malformed: it reads as 0 and the message is ignored
+	if len(seqnoBytes) >= 8 {
 		seqno = binary.BigEndian.Uint64(seqnoBytes)
 	}
 
